@@ -186,12 +186,36 @@ Definition k_slash_static (base : option bytes) (rs : list route) : bool :=
   existsb slash_static_flat (gen_routes rs)
   || match base with Some b => base_untame b | None => false end.
 
-(** F-C14-c: the table contains an OptionalParamSegment *)
-Definition k_optional (rs : list route) : bool :=
+(** (coarse form, used by intermediate lemmas) the table contains an OptionalParamSegment *)
+Definition k_optional_any (rs : list route) : bool :=
   existsb (existsb (fun x => match x with POpt _ => true | _ => false end)) (gen_routes rs).
+
+(** F-C14-c: an OptionalParamSegment anywhere but in a top-level suffix of the segment tuple
+    of a route without children: an optional followed by another segment in its tuple, an
+    optional inside a nested tuple, or an optional in a route that has children *)
+Definition is_sopt (s : seg) : bool := match s with SOpt _ => true | _ => false end.
+
+(** [l = pre ++ tail] with [pre] free of optionals and [tail] made of OptionalParamSegments *)
+Fixpoint opt_tail_list (l : list seg) : bool :=
+  match l with
+  | [] => true
+  | x :: l' => if seg_optional x then forallb is_sopt (x :: l') else opt_tail_list l'
+  end.
+Definition opt_tail_seg (s : seg) : bool :=
+  match s with STuple l => opt_tail_list l | _ => true end.
+
+Fixpoint opt_ok_route (r : route) : bool :=
+  match r with
+  | Route s None => opt_tail_seg s
+  | Route s (Some ks) => negb (seg_optional s) && forallb opt_ok_route ks
+  end.
+Definition k_optional (rs : list route) : bool := negb (forallb opt_ok_route rs).
 
 (** F-C14-d: the path has an empty segment *)
 Definition k_dslash (p : bytes) : bool := has_dslash p.
 
 Definition known_class (base : option bytes) (rs : list route) (p : bytes) : bool :=
   k_boundary base rs p || k_slash_static base rs || k_optional rs || k_dslash p.
+
+Definition known_class_coarse (base : option bytes) (rs : list route) (p : bytes) : bool :=
+  k_boundary base rs p || k_slash_static base rs || k_optional_any rs || k_dslash p.
